@@ -152,6 +152,11 @@ fn resources(m: &Map<String, Value>) -> Value {
     let asn = m["asn"].as_str().unwrap_or("");
     let v4 = m["ipv4"].as_str().unwrap_or("");
     let v6 = m["ipv6"].as_str().unwrap_or("");
+    resources_of(asn, v4, v6)
+}
+
+/// The same from the three strings as rpki-rs prints them.
+pub fn resources_of(asn: &str, v4: &str, v6: &str) -> Value {
     let set = match rpki::repository::resources::ResourceSet::from_strs(asn, v4, v6) {
         Ok(s) => s,
         Err(_) => return Value::String(format!("UNPARSED {asn}|{v4}|{v6}")),
